@@ -22,7 +22,7 @@ def run_cases(b, cases, workdir):
         os.chmod(ctx.w, 0o777)
         open(ctx.log, "wb").close()
         os.chmod(ctx.log, 0o666)
-        s = drv.Script()
+        s = drv.Script().add("childtimeout", 10)
         s.add("sinkfile", "file", drv.hx(ctx.log)).add("sinkstd").add("sinkdevlog", "devlog", drv.hx(ctx.devlog))
         s.path(ctx.helper).argv([b"prog", b"x"]).envp([b"A=1"]).add("ret", -1, 2).add("snap", 0)
         for label, chain, selfname, items, unread in batches[i]:
